@@ -454,17 +454,199 @@ theorem refreshGo_inv (ws : List Wp) : ∀ {s : Sys}, Inv s → s.wps.length + w
     refine ⟨this.1, ?_⟩
     rw [this.2]; simp [Sys.syncAll]
 
-theorem restart_inv {s : Sys} (hinv : Inv s) :
-    Inv (restart s) ∧
-    (restart s).wps.map (fun w => (w.num, w.hw.addr, w.hw.size, w.hw.cond, w.expr, w.companion)) =
+/-- the abstraction of `clear_local_disable_global` + `disable_all_breakpoints` + process start that the loop model
+is proved against: nothing is left but the counters -/
+def hibernate (s : Sys) : Sys :=
+  { s with main := {}, others := [], newborn := [], last := none, wps := [], comps := [] }
+
+/-- what `clear_local_disable_global` does to a watchpoint it keeps: with a live process its slot is given up
+(`register = None`), with a dead one nothing at all happens to it -/
+def hibernated (alive : Bool) (w : Wp) : Wp := if alive then { w with hw := { w.hw with reg := none } } else w
+
+theorem hibernated_scoped (alive : Bool) (w : Wp) : (hibernated alive w).scoped = w.scoped := by
+  cases alive <;> rfl
+
+theorem wpDisable_wps {s : Sys} {w : Wp} {st : Img} {s2 : Sys} (h : wpDisable s w = some (st, s2)) :
+    s2.wps = s.wps := by
+  unfold wpDisable at h
+  split at h
+  · simp at h
+  · simp only [Option.some.injEq, Prod.mk.injEq] at h
+    rw [← h.2]; simp [Sys.syncAll]
+
+theorem wpDisable_isSome {s : Sys} {w : Wp} (h : w.hw.reg.isSome) : ∃ st s2, wpDisable s w = some (st, s2) := by
+  unfold wpDisable
+  cases hr : w.hw.reg with
+  | none => simp [hr] at h
+  | some r => exact ⟨_, _, rfl⟩
+
+/-- the index loop of `clear_local_disable_global`, started at index `|pre|` with `|suf|` iterations to go on the
+vector `pre ++ suf`, ends with `pre` followed by the unscoped elements of `suf` (hibernated) — whatever the vector
+holds: no element is skipped and none is visited twice although the vector shrinks under the index -/
+theorem cldgLoop_wps (alive : Bool) (suf : List Wp) : ∀ (pre : List Wp) (s s' : Sys), s.wps = pre ++ suf →
+    cldgLoop alive suf.length pre.length s = some s' →
+    s'.wps = pre ++ (suf.filter (fun w => !w.scoped)).map (hibernated alive) := by
+  induction suf with
+  | nil =>
+    intro pre s s' hw h
+    simp only [List.length_nil, cldgLoop, Option.some.injEq] at h
+    subst h; simpa using hw
+  | cons w suf ih =>
+    intro pre s s' hw h
+    have hj : s.wps[pre.length]? = some w := by rw [hw]; simp
+    have he : s.wps.eraseIdx pre.length = pre ++ suf := by
+      rw [hw, List.eraseIdx_append_of_length_le (Nat.le_refl _)]; simp
+    simp only [List.length_cons, cldgLoop, hj] at h
+    by_cases hsc : w.scoped = true
+    · simp only [hsc, if_true] at h
+      cases alive with
+      | true =>
+        simp only [if_true] at h
+        split at h
+        · simp at h
+        · rename_i st s2 hd
+          have h2 := wpDisable_wps hd
+          have := ih pre _ s' (by simp only [h2, he]) h
+          simpa [hsc] using this
+      | false =>
+        simp only [Bool.false_eq_true, if_false] at h
+        have := ih pre _ s' (by simp only [he]) h
+        simpa [hsc] using this
+    · simp only [hsc, Bool.false_eq_true, if_false] at h
+      have hns : (!w.scoped) = true := by simp [hsc]
+      cases alive with
+      | true =>
+        simp only [if_true] at h
+        split at h
+        · simp at h
+        · rename_i st s2 hd
+          have h2 := wpDisable_wps hd
+          have := ih (pre ++ [hibernated true w])
+            { s2 with wps := s2.wps.set pre.length { w with hw := { w.hw with reg := none } } } s' (by
+            simp only [h2, hw]
+            rw [List.set_append_right _ _ (Nat.le_refl _)]
+            simp [hibernated]) (by simpa using h)
+          simpa [hns] using this
+      | false =>
+        simp only [Bool.false_eq_true, if_false] at h
+        have := ih (pre ++ [w]) s s' (by simp [hw]) (by simpa using h)
+        simpa [hns, hibernated] using this
+
+/-- with a dead process the loop cannot panic; with a live one it cannot as long as every watchpoint owns a slot -/
+theorem cldgLoop_total (alive : Bool) (suf : List Wp) : ∀ (pre : List Wp) (s : Sys), s.wps = pre ++ suf →
+    (alive = false ∨ ∀ w ∈ suf, w.hw.reg.isSome) → ∃ s', cldgLoop alive suf.length pre.length s = some s' := by
+  induction suf with
+  | nil => intro pre s _ _; exact ⟨s, rfl⟩
+  | cons w suf ih =>
+    intro pre s hw hreg
+    have hj : s.wps[pre.length]? = some w := by rw [hw]; simp
+    have he : s.wps.eraseIdx pre.length = pre ++ suf := by
+      rw [hw, List.eraseIdx_append_of_length_le (Nat.le_refl _)]; simp
+    have hreg' : alive = false ∨ ∀ w ∈ suf, w.hw.reg.isSome := by
+      rcases hreg with h | h
+      · exact Or.inl h
+      · exact Or.inr (fun x hx => h x (List.mem_cons_of_mem _ hx))
+    simp only [List.length_cons, cldgLoop, hj]
+    by_cases hsc : w.scoped = true
+    · simp only [hsc, if_true]
+      cases alive with
+      | true =>
+        have hr : w.hw.reg.isSome := by
+          rcases hreg with h | h
+          · simp at h
+          · exact h w (List.mem_cons_self ..)
+        obtain ⟨st, s2, hd⟩ := wpDisable_isSome (s := { s with wps := s.wps.eraseIdx pre.length }) hr
+        simp only [if_true, hd]
+        exact ih pre _ (by simp only [wpDisable_wps hd, he]) hreg'
+      | false =>
+        simp only [Bool.false_eq_true, if_false]
+        exact ih pre _ (by simp only [he]) hreg'
+    · simp only [hsc, Bool.false_eq_true, if_false]
+      cases alive with
+      | true =>
+        have hr : w.hw.reg.isSome := by
+          rcases hreg with h | h
+          · simp at h
+          · exact h w (List.mem_cons_self ..)
+        obtain ⟨st, s2, hd⟩ := wpDisable_isSome (s := s) hr
+        simp only [if_true, hd]
+        have := ih (pre ++ [hibernated true w]) { s2 with wps := s2.wps.set pre.length (hibernated true w) } (by
+          simp only [wpDisable_wps hd, hw]
+          rw [List.set_append_right _ _ (Nat.le_refl _)]
+          simp) hreg'
+        simpa [hibernated] using this
+      | false =>
+        simp only [Bool.false_eq_true, if_false]
+        have := ih (pre ++ [w]) s (by simp [hw]) hreg'
+        simpa using this
+
+theorem cldg_spec (alive : Bool) (s s' : Sys) (h : clearLocalDisableGlobal alive s = some s') :
+    s'.wps = (s.wps.filter (fun w => !w.scoped)).map (hibernated alive) ∧ s'.last = none := by
+  unfold clearLocalDisableGlobal at h
+  simp only [Option.map_eq_some_iff] at h
+  obtain ⟨s1, h1, rfl⟩ := h
+  have := cldgLoop_wps alive s.wps [] s s1 (by simp) (by simpa using h1)
+  exact ⟨by simpa using this, rfl⟩
+
+theorem cldg_total (alive : Bool) (s : Sys) (hreg : alive = false ∨ ∀ w ∈ s.wps, w.hw.reg.isSome) :
+    ∃ s', clearLocalDisableGlobal alive s = some s' := by
+  obtain ⟨s1, h1⟩ := cldgLoop_total alive s.wps [] s (by simp) hreg
+  refine ⟨{ s1 with last := none }, ?_⟩
+  unfold clearLocalDisableGlobal
+  simp only [List.length_nil] at h1
+  rw [h1]; rfl
+
+theorem restart_inv {s : Sys} (hinv : Inv s) (alive : Bool) :
+    ∃ s', restart alive s = some s' ∧ Inv s' ∧
+    s'.wps.map (fun w => (w.num, w.hw.addr, w.hw.size, w.hw.cond, w.expr, w.companion)) =
       (s.wps.filter (fun w => !w.scoped)).map (fun w => (w.num, w.hw.addr, w.hw.size, w.hw.cond, w.expr, w.companion)) := by
-  unfold restart
-  have h0 : Inv (hibernate s) :=
-    ⟨⟨by simp [hibernate], by intro i _; simp [hibernate, cnt_nil]⟩, encodes_zero, by simp [hibernate], by simp [hibernate], by simp [hibernate]⟩
-  have hl : (s.wps.filter (fun w => !w.scoped)).length ≤ 4 :=
-    Nat.le_trans (List.length_filter_le _ _) hinv.reg.length_le
-  have := refreshGo_inv (s.wps.filter (fun w => !w.scoped)) h0 (by simp [hibernate]; exact hl)
-  simpa [hibernate] using this
+  have hreg : alive = false ∨ ∀ w ∈ s.wps, w.hw.reg.isSome := by
+    refine Or.inr (fun w hw => ?_)
+    obtain ⟨r, _, hr⟩ := hinv.reg.slots w hw
+    simp [hr]
+  obtain ⟨s1, h1⟩ := cldg_total alive s hreg
+  obtain ⟨hw1, hl1⟩ := cldg_spec alive s s1 h1
+  have hns : (newProcess s1).wps.any (fun w => w.scoped) = false := by
+    simp only [newProcess, hw1, List.any_eq_false, List.mem_map, List.mem_filter]
+    rintro w ⟨x, ⟨_, hx⟩, rfl⟩
+    rw [hibernated_scoped]; simpa using hx
+  have h0 : Inv { newProcess s1 with wps := [] } :=
+    ⟨⟨by simp, by intro i _; simp [cnt_nil]⟩, encodes_zero, by simp [newProcess], by simp [newProcess, hl1], by simp⟩
+  have hl : (newProcess s1).wps.length ≤ 4 := by
+    simp only [newProcess, hw1, List.length_map]
+    exact Nat.le_trans (List.length_filter_le _ _) hinv.reg.length_le
+  have := refreshGo_inv (newProcess s1).wps h0 (by simpa using hl)
+  refine ⟨refreshGo { newProcess s1 with wps := [] } (newProcess s1).wps, ?_, this.1, ?_⟩
+  · simp only [restart, h1, refresh, hns, Bool.false_eq_true, if_false]
+  · rw [this.2]
+    simp only [List.nil_append, newProcess, hw1, List.map_map]
+    apply List.map_congr_left
+    intro w _
+    cases alive <;> rfl
+
+/-- what the kernel gives a new thread encodes the empty list whenever its parent's registers do -/
+theorem encodes_kernelNew {m : Img} (h : Encodes m []) : Encodes (kernelNewThread m) [] where
+  enabled := h.enabled
+  fields := by intro i _ w hw; simp at hw
+  global := h.global
+  ge := h.ge
+  le := h.le
+
+/-- a thread registered by either handler receives `last_seen_state`, which encodes the list -/
+theorem register_inv {s : Sys} (hinv : Inv s) (t : Nat) : Inv (register s t) := by
+  refine ⟨hinv.reg, hinv.main, ?_, hinv.last, hinv.lastNone⟩
+  intro x hx
+  simp only [register] at hx
+  rcases List.mem_append.1 hx with hx | hx
+  · exact hinv.others x hx
+  · simp only [List.mem_singleton] at hx; subst hx
+    show Encodes (s.last.getD (kernelNewThread s.main)) s.wps
+    cases hl : s.last with
+    | some l => exact hinv.last l hl
+    | none =>
+      have hm := hinv.main
+      rw [hinv.lastNone hl] at hm ⊢
+      exact encodes_kernelNew hm
 
 theorem step_inv {s : Sys} (hinv : Inv s) (op : Op) : Inv (step s op).2 := by
   cases op with
@@ -482,7 +664,10 @@ theorem step_inv {s : Sys} (hinv : Inv s) (op : Op) : Inv (step s op).2 := by
     · simp only [List.mem_singleton] at ht; subst ht
       cases hl : s.last with
       | some l => exact hinv.last l hl
-      | none => rw [hinv.lastNone hl]; exact encodes_zero
+      | none =>
+        have hm := hinv.main
+        rw [hinv.lastNone hl] at hm ⊢
+        exact encodes_kernelNew hm
   | threadExit i =>
     simp only [step]
     exact ⟨hinv.reg, hinv.main, fun t ht => hinv.others t (List.mem_of_mem_eraseIdx ht), hinv.last, hinv.lastNone⟩
@@ -509,7 +694,24 @@ theorem step_inv {s : Sys} (hinv : Inv s) (op : Op) : Inv (step s op).2 := by
         · rename_i s' hs; exact removeNums_inv hinv _ hs
         · exact hinv
       · exact hinv
-  | restart => exact (restart_inv hinv).1
+  | spawn t =>
+    simp only [step]
+    split
+    · exact hinv
+    · exact ⟨hinv.reg, hinv.main, hinv.others, hinv.last, hinv.lastNone⟩
+  | evClone t =>
+    simp only [step]
+    split
+    · exact register_inv hinv t
+    · exact hinv
+  | evStop t =>
+    simp only [step]
+    split
+    · exact register_inv hinv t
+    · exact hinv
+  | restart alive =>
+    obtain ⟨s', h, hi, _⟩ := restart_inv hinv alive
+    simp only [step, h]; exact hi
 
 theorem run_inv (ops : List Op) : ∀ {s : Sys}, Inv s → Inv (run s ops) := by
   induction ops with
